@@ -534,6 +534,10 @@ def _concrete_seq(eng, st, it):
             return [mk_ref(r, p + (('idx', C('usize', i)),)) for i in range(len(v[1]))]
     if it[1] == 'val' and it[2][0] in ('vec', 'array'):
         return list(it[2][1])
+    if it[1] == 'map':
+        items = drive_items(eng, st, it[2])
+        if items is not None:
+            return [('tuple', (k, v)) for k, v in items]
     return None
 
 
@@ -548,7 +552,7 @@ def _next_generic(eng, st, fr, t, args, dest, target):
                 eng.store(st, r, p, ('enum', itv[1], itv[2], itv[3], (C(a[1], cval(a) + 1), b)))
                 return SOME(a)
             return NONE
-    if isinstance(itv, tuple) and itv[0] == 'iter' and itv[1] in ('seq', 'val'):
+    if isinstance(itv, tuple) and itv[0] == 'iter' and itv[1] in ('seq', 'val', 'map'):
         items = _concrete_seq(eng, st, itv)
         if items is not None:
             pos = itv[3] if len(itv) > 3 else 0
